@@ -37,6 +37,9 @@ type trUnit struct {
 	vars    []string            // package-level variables with a constant initialiser, emitted as definitions
 	consts  []string            // package-level string constants, emitted as definitions
 	optPtr  []string            // struct types whose pointers are optional values (`*T` = Option T, `&T{…}` = some, nil = none)
+	skip    []string            // calls (source text of the callee) that are effects outside the translated state: the
+	                            // statement is dropped (its arguments are still guarded)
+	extern  map[string]trExtern // functions of other translated units: source text of the callee -> its translation
 	panics  bool                // panic-aware translation: index and slice expressions are guarded, functions that can
 	                            // panic return `Outcome`
 	opaque  map[string]string   // method name -> field of Ext it stands for (a method the subset cannot express), applied to the method's name
@@ -68,6 +71,14 @@ var trUnits = []trUnit{
 		structs: map[string][]string{"User": {"Name", "permissions"}},
 		vars:    []string{"permissionTypes"},
 		funcs:   []string{"splitPermission", "User.iteratePaths"}},
+	{ns: "Config", pkgDir: "internal/config", panics: true,
+		structs: map[string][]string{},
+		funcs:   []string{"setOption", "DeserializeOptions"}},
+	{ns: "Decode", pkgDir: "internal/server/handlers", panics: true,
+		structs: map[string][]string{"baseHandler": {}},
+		skip:    []string{"h.send", "h.sendln", "h.handleCommandCb", "h.handleOptions", "context.WithCancel"},
+		extern:  map[string]trExtern{"config.DeserializeOptions": {lean: "Dtail.Gen.Config.DeserializeOptions", nResults: 3, canPanic: true}},
+		funcs:   []string{"baseHandler.handleProtocolVersion", "baseHandler.handleBase64", "baseHandler.handleCommand"}},
 	{ns: "MaprQuery", pkgDir: "internal/mapr", panics: true,
 		structs: map[string][]string{"token": nil, "selectCondition": nil, "whereCondition": nil, "setCondition": nil, "Outfile": nil, "Query": nil},
 		enums:   []string{"AggregateOperation", "QueryOperation", "fieldType"},
@@ -77,6 +88,12 @@ var trUnits = []trUnit{
 		funcs: []string{"token.isKeyword", "tokenize", "tokensConsume", "tokensConsumeStr", "tokensConsumeOptional",
 			"makeSelectConditions", "whereCondition.fill", "makeWhereConditions", "initSetConditions", "makeSetConditions",
 			"Query.parseTokens", "Query.parse", "NewQuery"}},
+}
+
+type trExtern struct {
+	lean     string // fully qualified Lean name
+	nResults int
+	canPanic bool
 }
 
 type trErr struct{ msg string }
@@ -110,7 +127,9 @@ type trSig struct {
 	recv     string // receiver type name ("" = function)
 	ptrRecv  bool
 	nResults int
-	ptrParam string // a plain function whose first parameter is a pointer to a translated struct: the parameter's name
+	ptrIdx   int    // position of that parameter
+	ptrType  string // its Lean type
+	ptrParam string // a plain function one of whose parameters is a pointer to a translated struct: the parameter's name
 	// (the function returns the updated value in front of its results, like a pointer receiver)
 }
 
@@ -204,6 +223,8 @@ func (p *trPkg) leanType(e ast.Expr) string {
 		switch src(t) {
 		case "time.Duration":
 			return "Int"
+		case "lcontext.LContext":
+			return "GoLContext"
 		case "funcs.FunctionStack":
 			return "(List GoString)"
 		case "bytes.Buffer":
@@ -247,6 +268,9 @@ func (p *trPkg) leanZero(e ast.Expr) string {
 		if _, ok := p.unit.structs[id.Name]; ok {
 			return "({} : " + id.Name + ")"
 		}
+	}
+	if src(e) == "lcontext.LContext" {
+		return "({} : GoLContext)"
 	}
 	if st, ok := e.(*ast.StarExpr); ok {
 		if id, ok := st.X.(*ast.Ident); ok && contains(p.unit.optPtr, id.Name) {
@@ -374,6 +398,7 @@ type trFn struct {
 	loops     int               // loop nesting depth (only 0 or 1 is in the subset)
 	inGuardedSwitch bool
 	resTypes  []ast.Expr        // declared result types
+	mapVars   map[string]bool   // parameters and locals of map type
 	okValue   string            // the variable a matched call result is bound to (callStmt -> callBind)
 }
 
@@ -557,6 +582,9 @@ func (f *trFn) guards(e ast.Expr) []string {
 		return out
 	case *ast.IndexExpr:
 		out := append(f.guards(v.X), f.guards(v.Index)...)
+		if id, ok := v.X.(*ast.Ident); ok && f.mapVars[id.Name] {
+			return out // reading or writing a map entry never panics (no translated function holds a nil map)
+		}
 		return append(out, fmt.Sprintf("(goInRange %s %s)", f.expr(v.X), f.expr(v.Index)))
 	case *ast.SliceExpr:
 		out := append(f.guards(v.X), append(f.guards(v.Low), f.guards(v.High)...)...)
@@ -676,12 +704,16 @@ func (f *trFn) stmt1(ind string, s ast.Stmt, next cont) string {
 		out := f.stmts(ind, st.List, func(ind string) string { f.pop(); r := next(ind); f.push(); return r })
 		f.pop()
 		return out
+	case *ast.GoStmt:
+		if len(f.p.unit.skip) > 0 {
+			return next(ind) // a goroutine started here is an effect outside the translated state
+		}
 	case *ast.ExprStmt:
 		call, ok := st.X.(*ast.CallExpr)
 		if !ok {
 			trFail(st, "expression statement is not a call")
 		}
-		if isLogging(call) {
+		if isLogging(call) || contains(f.p.unit.skip, src(call.Fun)) {
 			return next(ind)
 		}
 		return f.callStmt(ind, nil, false, call, next)
@@ -722,6 +754,11 @@ func (f *trFn) stmt1(ind string, s ast.Stmt, next cont) string {
 		}
 		return out + next(ind)
 	case *ast.AssignStmt:
+		if len(st.Rhs) == 1 {
+			if call, ok := st.Rhs[0].(*ast.CallExpr); ok && contains(f.p.unit.skip, src(call.Fun)) {
+				return next(ind) // the results are only handed to other skipped calls
+			}
+		}
 		return f.assign(ind, st, next)
 	case *ast.IfStmt:
 		return f.ifStmt(ind, st, next)
@@ -842,6 +879,9 @@ func (f *trFn) assign(ind string, st *ast.AssignStmt, k cont) string {
 		}
 		if call, ok := st.Rhs[0].(*ast.CallExpr); ok && st.Tok != token.ADD_ASSIGN {
 			if key := f.p.calleeKey(f.key, call); key != "" && f.p.canPanic[key] {
+				return f.callStmt(ind, st.Lhs, define, call, k)
+			}
+			if _, ok := f.p.unit.extern[src(call.Fun)]; ok {
 				return f.callStmt(ind, st.Lhs, define, call, k)
 			}
 		}
@@ -1022,6 +1062,34 @@ func (p *trPkg) pureMethod(key string) bool {
 // callStmt: a call used as a statement or as the right-hand side of an assignment; a callee that can panic is
 // matched on: its panic is the caller's panic
 func (f *trFn) callStmt(ind string, lhs []ast.Expr, define bool, call *ast.CallExpr, k cont) string {
+	if ex, ok := f.p.unit.extern[src(call.Fun)]; ok {
+		var args []string
+		for _, a := range call.Args {
+			args = append(args, f.expr(a))
+		}
+		text := strings.TrimSpace(fmt.Sprintf("%s ext %s", ex.lean, strings.Join(args, " ")))
+		bind := func(ind, val string) string {
+			if len(lhs) == 0 {
+				return k(ind)
+			}
+			if len(lhs) == 1 {
+				return f.oneAssign(ind, lhs[0], define, val, k)
+			}
+			return f.bindTuple(ind, lhs, define, val, k)
+		}
+		if !ex.canPanic {
+			return bind(ind, "("+text+")")
+		}
+		if !f.panicky {
+			trFail(call, "%s calls %s, which can panic, but is translated as a total function", f.key, ex.lean)
+		}
+		f.counter++
+		v := fmt.Sprintf("_o%d", f.counter)
+		out := fmt.Sprintf("%smatch %s with\n%s| Outcome.ok %s =>\n", ind, text, ind, v)
+		out += bind(ind+"  ", v)
+		out += ind + "| _ =>\n" + f.panicLine(ind+"  ", "panic in "+ex.lean)
+		return out
+	}
 	if key := f.p.calleeKey(f.key, call); key != "" && f.p.canPanic[key] {
 		if !f.panicky {
 			trFail(call, "%s calls %s, which can panic, but is translated as a total function", f.key, key)
@@ -1055,9 +1123,9 @@ func (f *trFn) callText(call *ast.CallExpr) string {
 	if key == "" {
 		trFail(call, "call of %s is not a translated function", src(call.Fun))
 	}
-	if f.p.sigs[key].ptrParam != "" {
-		if u, ok := call.Args[0].(*ast.UnaryExpr); ok && u.Op == token.AND {
-			args[0] = f.expr(u.X)
+	if sg := f.p.sigs[key]; sg.ptrParam != "" {
+		if u, ok := call.Args[sg.ptrIdx].(*ast.UnaryExpr); ok && u.Op == token.AND {
+			args[sg.ptrIdx] = f.expr(u.X)
 		}
 	}
 	return strings.TrimSpace(fmt.Sprintf("%s ext %s", leanIdent(key), strings.Join(args, " ")))
@@ -1125,9 +1193,9 @@ func (f *trFn) callBind(ind string, lhs []ast.Expr, define bool, call *ast.CallE
 	// a plain translated function that updates its first argument through a pointer
 	if key := f.p.calleeKey(f.key, call); key != "" && f.p.sigs[key].ptrParam != "" {
 		sig := f.p.sigs[key]
-		target, ok := call.Args[0].(*ast.UnaryExpr)
+		target, ok := call.Args[sig.ptrIdx].(*ast.UnaryExpr)
 		if !ok || target.Op != token.AND {
-			trFail(call, "call of %s: the first argument must be &variable", key)
+			trFail(call, "call of %s: the pointer argument must be &variable", key)
 		}
 		rhs := okv
 		if rhs == "" {
@@ -1348,6 +1416,11 @@ func (f *trFn) assignedOuter(body []ast.Stmt) []string {
 			}
 			if recv := randDraw(s); recv != nil {
 				mark(recv)
+			}
+			if key := f.p.calleeKey(f.key, s); key != "" && f.p.sigs[key].ptrParam != "" {
+				if u, ok := s.Args[f.p.sigs[key].ptrIdx].(*ast.UnaryExpr); ok && u.Op == token.AND {
+					mark(u.X) // updated through the pointer
+				}
 			}
 		}
 		return true
@@ -1613,6 +1686,15 @@ func (f *trFn) expr(e ast.Expr) string {
 		}
 		if id, ok := v.X.(*ast.Ident); ok {
 			if _, isVar := f.lookup(id.Name); !isVar {
+				if dir, ok := map[string]string{"protocol": "internal/protocol"}[id.Name]; ok {
+					if text, ok := crossConst(dir, v.Sel.Name); ok {
+						return f.p.strLit(text)
+					}
+				}
+			}
+		}
+		if id, ok := v.X.(*ast.Ident); ok {
+			if _, isVar := f.lookup(id.Name); !isVar {
 				trFail(v, "package-qualified name %s is not in the translated subset", src(v))
 			}
 		}
@@ -1620,6 +1702,9 @@ func (f *trFn) expr(e ast.Expr) string {
 	case *ast.IndexExpr:
 		return fmt.Sprintf("(GoIndex.idx %s %s)", f.expr(v.X), f.expr(v.Index))
 	case *ast.CompositeLit:
+		if src(v.Type) == "lcontext.LContext" && len(v.Elts) == 0 {
+			return "({} : GoLContext)"
+		}
 		switch t := v.Type.(type) {
 		case *ast.Ident:
 			if _, ok := f.p.unit.structs[t.Name]; ok {
@@ -1781,6 +1866,10 @@ func (f *trFn) expr(e ast.Expr) string {
 			return "(hasSuffix " + f.expr(v.Args[1]) + " " + f.expr(v.Args[0]) + ")"
 		case "time.Duration":
 			return "(goConv " + f.expr(v.Args[0]) + ")"
+		case "base64.StdEncoding.DecodeString":
+			return "(ext.base64Decode " + f.expr(v.Args[0]) + ")"
+		case "string":
+			return f.expr(v.Args[0])
 		case "funcs.NewFunctionStack":
 			return "(ext.newFunctionStack " + f.expr(v.Args[0]) + ")"
 		case "strings.HasPrefix":
@@ -1945,6 +2034,7 @@ func (p *trPkg) emitFunc(sb *strings.Builder, key string) {
 		params += fmt.Sprintf(" (%s : %s)", f.declare(f.recv), sig.recv)
 		f.vtypes[f.recv] = sig.recv
 	}
+	f.mapVars = p.mapVarsOf(ftype, body)
 	for _, fl := range ftype.Params.List {
 		for _, n := range fl.Names {
 			params += fmt.Sprintf(" (%s : %s)", f.declare(n.Name), p.leanType(fl.Type))
@@ -1956,7 +2046,7 @@ func (p *trPkg) emitFunc(sb *strings.Builder, key string) {
 		rtypes = append(rtypes, sig.recv)
 	}
 	if sig.ptrParam != "" {
-		rtypes = append(rtypes, recvTypeName(ftype.Params.List[0].Type))
+		rtypes = append(rtypes, sig.ptrType)
 	}
 	pre := ""
 	if ftype.Results != nil {
@@ -2009,6 +2099,31 @@ func (p *trPkg) emitFunc(sb *strings.Builder, key string) {
 	sb.WriteString(pre + out + "\n")
 }
 
+// mapVarsOf: the parameters of map type and the locals made with make(map…)
+func (p *trPkg) mapVarsOf(ftype *ast.FuncType, body *ast.BlockStmt) map[string]bool {
+	m := map[string]bool{}
+	for _, fl := range ftype.Params.List {
+		if _, ok := fl.Type.(*ast.MapType); ok {
+			for _, n := range fl.Names {
+				m[n.Name] = true
+			}
+		}
+	}
+	ast.Inspect(body, func(n ast.Node) bool {
+		if as, ok := n.(*ast.AssignStmt); ok && len(as.Lhs) == 1 && len(as.Rhs) == 1 {
+			if call, ok := as.Rhs[0].(*ast.CallExpr); ok && src(call.Fun) == "make" && len(call.Args) > 0 {
+				if _, isMap := call.Args[0].(*ast.MapType); isMap {
+					if id, ok := as.Lhs[0].(*ast.Ident); ok {
+						m[id.Name] = true
+					}
+				}
+			}
+		}
+		return true
+	})
+	return m
+}
+
 // bodyOf: the body of a translated function or lifted closure
 func (p *trPkg) bodyOf(key string) *ast.BlockStmt {
 	if lit, ok := p.lits[key]; ok {
@@ -2044,6 +2159,13 @@ func (p *trPkg) computeCanPanic() {
 	direct := func(key string) bool {
 		found := false
 		okForm := map[ast.Expr]bool{}
+		var ftype *ast.FuncType
+		if lit, ok := p.lits[key]; ok {
+			ftype = lit.Type
+		} else {
+			ftype = p.funcs[key].Type
+		}
+		maps := p.mapVarsOf(ftype, p.bodyOf(key))
 		ast.Inspect(p.bodyOf(key), func(n ast.Node) bool {
 			switch v := n.(type) {
 			case *ast.FuncLit:
@@ -2055,6 +2177,9 @@ func (p *trPkg) computeCanPanic() {
 					}
 				}
 			case *ast.IndexExpr:
+				if id, ok := v.X.(*ast.Ident); ok && maps[id.Name] {
+					break
+				}
 				if !okForm[v] {
 					found = true
 				}
@@ -2086,6 +2211,10 @@ func (p *trPkg) computeCanPanic() {
 				}
 				if call, ok := n.(*ast.CallExpr); ok {
 					if k := p.calleeKey(key, call); k != "" && p.canPanic[k] && !p.canPanic[key] {
+						p.canPanic[key] = true
+						changed = true
+					}
+					if ex, ok := p.unit.extern[src(call.Fun)]; ok && ex.canPanic && !p.canPanic[key] {
 						p.canPanic[key] = true
 						changed = true
 					}
@@ -2122,6 +2251,40 @@ func (p *trPkg) emitConst(sb *strings.Builder, name string) {
 		}
 	}
 	trFail(nil, "constant %s not found in %s", name, p.unit.pkgDir)
+}
+
+// crossConst: a string constant of another package of the repository
+func crossConst(dir, name string) (string, bool) {
+	ents, err := os.ReadDir(filepath.Join(repo, dir))
+	if err != nil {
+		return "", false
+	}
+	for _, e := range ents {
+		if !strings.HasSuffix(e.Name(), ".go") || strings.HasSuffix(e.Name(), "_test.go") {
+			continue
+		}
+		f, err := parser.ParseFile(fset, filepath.Join(repo, dir, e.Name()), nil, 0)
+		if err != nil {
+			continue
+		}
+		for _, d := range f.Decls {
+			gd, ok := d.(*ast.GenDecl)
+			if !ok || gd.Tok != token.CONST {
+				continue
+			}
+			for _, sp := range gd.Specs {
+				vs := sp.(*ast.ValueSpec)
+				for i, n := range vs.Names {
+					if n.Name == name && i < len(vs.Values) {
+						if text, ok := constStr(eval(vs.Values[i], nil)); ok {
+							return text, true
+						}
+					}
+				}
+			}
+		}
+	}
+	return "", false
 }
 
 // emitVar: a package-level `var name = <composite literal of constants>` as a Lean definition
@@ -2193,13 +2356,24 @@ func translateUnit(u trUnit) (out string) {
 					s.nResults += len(fl.Names)
 				}
 			}
-			if d.Recv == nil && len(d.Type.Params.List) > 0 {
-				if st, ok := d.Type.Params.List[0].Type.(*ast.StarExpr); ok && len(d.Type.Params.List[0].Names) == 1 {
-					if id, ok := st.X.(*ast.Ident); ok && !contains(u.optPtr, id.Name) {
-						if _, isStruct := u.structs[id.Name]; isStruct {
-							s.ptrParam = d.Type.Params.List[0].Names[0].Name
+			if d.Recv == nil {
+				idx := 0
+				for _, fl := range d.Type.Params.List {
+					if st, ok := fl.Type.(*ast.StarExpr); ok && len(fl.Names) == 1 && s.ptrParam == "" {
+						name := ""
+						if id, ok := st.X.(*ast.Ident); ok && !contains(u.optPtr, id.Name) {
+							if _, isStruct := u.structs[id.Name]; isStruct {
+								name = id.Name
+							}
+						}
+						if src(st.X) == "lcontext.LContext" {
+							name = "GoLContext"
+						}
+						if name != "" {
+							s.ptrParam, s.ptrIdx, s.ptrType = fl.Names[0].Name, idx, name
 						}
 					}
+					idx += len(fl.Names)
 				}
 			}
 			p.sigs[key] = s
